@@ -157,6 +157,7 @@ type runMeta struct {
 	EvidencePath   string
 	CGNodes        int
 	Only           string
+	Quiet          bool // selftest multi mode: only verdict lines
 }
 
 func (r *Report) finish(m runMeta, known map[string]*Finding) int {
@@ -238,7 +239,9 @@ func (r *Report) finish(m runMeta, known map[string]*Finding) int {
 	for _, o := range knownHit {
 		f := known[o.Key]
 		line := fmt.Sprintf("KNOWN-FINDING: property=%s %s — %s (%s) [%s]", m.Property, o.Key, f.What, f.FailingInput, o.At)
-		fmt.Println(line)
+		if !m.Quiet {
+			fmt.Println(line)
+		}
 		kf = append(kf, o.Key)
 	}
 
@@ -289,11 +292,16 @@ func (r *Report) finish(m runMeta, known map[string]*Finding) int {
 
 	// summary to stdout
 	for _, id := range sortedKeys(stats) {
+		if m.Quiet {
+			break
+		}
 		st := stats[id]
 		fmt.Printf("rule %-12s instances=%-4d floor=%-4d discharged=%-4d violated=%-3d undecided=%-3d\n", id, st.Instances, st.Floor, st.Discharged, st.Violated, st.Undecided)
 	}
-	fmt.Printf("property=%s tier=%s obligations=%d discharged=%d known=%d violations=%d packages=%d functions=%d wall=%.1fs\n",
-		m.Property, m.Tier, len(r.obs), discharged, len(knownHit), len(bad), len(r.prog.Mod), funcs, m.WallS)
+	if !m.Quiet {
+		fmt.Printf("property=%s tier=%s obligations=%d discharged=%d known=%d violations=%d packages=%d functions=%d wall=%.1fs\n",
+			m.Property, m.Tier, len(r.obs), discharged, len(knownHit), len(bad), len(r.prog.Mod), funcs, m.WallS)
+	}
 
 	if len(bad) > 0 {
 		replay := strings.TrimSuffix(m.EvidencePath, ".json") + ".violations.json"
